@@ -12,8 +12,11 @@ open EAO EAO.Scaled EAO.Structured
 /-! ## scaled asset -/
 
 /-- the base problem "with all capacities multiplied by `k`", read off the finished base problem:
-    every right-hand side times `k`, the bounds of every dispatch variable times `k`, the bounds of
-    the other variables unchanged -/
+    every right-hand side times `k`, the bounds of every capacity variable times `k`, the bounds of
+    the other variables unchanged.  Capacity variables (`dispVars`, the code's `Idisp` since 3f8a945) are
+    the variables with a mapping row of type 'd' or with a NON-BOOLEAN mapping row of type 'i' (the dispatch
+    at an internal node of a wrapped structured asset); variables that only have boolean 'i' rows (on / start
+    flags), rows of another type ('size') or no mapping row at all (orders outside the horizon) are not. -/
 def RescaledBaseFeasible (base : AssetProblem) (k : Rat) (x : Vec) : Prop :=
   (∀ j, j < base.n →
     if (dispVars base.mapping).contains j
@@ -22,12 +25,13 @@ def RescaledBaseFeasible (base : AssetProblem) (k : Rat) (x : Vec) : Prop :=
   ∀ r ∈ base.rows, (scaleRhs k r).Sat x
 
 /-- **C16 (scaled asset at a fixed scale).**  For ANY non-empty base problem whose bounds have the right
-    length and whose dispatch variables are variables of the base (`d < n`; implied by "mapping rows point
+    length and whose capacity variables are variables of the base (`d < n`; implied by "mapping rows point
     at base variables", `dispVars_lt`), with `0 < norm`: let `(x, s)` be a point whose scale component
     `s = x n` satisfies `0 ≤ s`, `min_scale ≤ s ≤ max_scale`.  Then `(x, s)` satisfies bounds and rows of the
     scaled problem iff `x` satisfies the base problem with every right-hand side and the bounds of every
-    dispatch variable (type d, or non-boolean type i: dispatch at an internal node of a wrapped structure) multiplied by `s/norm`, the bounds of all other variables (internal boolean, without
-    mapping row) unchanged — the widened box `min(0,l)·max_scale/norm ≤ x ≤ max(0,u)·max_scale/norm` is
+    capacity variable (a mapping row of type 'd', or a non-boolean row of type 'i': dispatch at an internal
+    node of a wrapped structure) multiplied by `s/norm`, the bounds of all other variables (boolean
+    internal variables, variables of other types, variables without mapping row) unchanged — the widened box `min(0,l)·max_scale/norm ≤ x ≤ max(0,u)·max_scale/norm` is
     implied, which needs exactly `0 ≤ s ≤ max_scale` and `0 < norm` — and the value is the base value minus
     `s · fix_costs · Σdt`.  (No hypothesis on the columns of the base rows is needed for the equivalence;
     `scaled_wf` uses `columns < n` to show that the rows stay inside the `n + 1` variables.) -/
@@ -85,8 +89,8 @@ theorem scaled_fixed (p : ScaledP) (base : AssetProblem) (dtSum : Rat) (x : Vec)
     have : x base.c.length = s := hxs
     rw [this]; grind
 
-/-- non-vacuity of `scaled_fixed`: a base with two dispatch variables, one row `x0 + x1 ≤ 3`, scale 1 of
-    norm 2, a feasible point -/
+/-- non-vacuity of `scaled_fixed`: a base with two capacity variables (type 'd'), one row `x0 + x1 ≤ 3`,
+    scale 1 of norm 2, a feasible point -/
 def exBase : AssetProblem :=
   { name := "b", nodes := ["n"], c := [2, -1], l := [0, -1], u := [4, 0],
     rows := [⟨[(0, 1), (1, 1)], 3, .U⟩],
@@ -100,7 +104,7 @@ example : (∀ d ∈ dispVars exBase.mapping, d < exBase.n) ∧ (buildScaled exP
   decide +kernel
 
 /-- the case that was wrong before the repair 8409988 (finding S-1): an order book with the order `x0` in
-    the horizon (two steps) and an order `x1` outside (a variable without mapping row, not a dispatch
+    the horizon (two steps) and an order `x1` outside (a variable without mapping row, not a capacity
     variable).  Now `x0` is tied to the scale `x2`: "order fully executed at scale 0" is infeasible, the
     point (1/2, 1, 1/2) is feasible for the scaled problem and for the base rescaled by 1/2 (where `x1`
     keeps its box [0,1]); the scale's mapping row points at variable 2. -/
@@ -115,6 +119,105 @@ example : dispVars exOB.mapping = [0] ∧ ¬ (buildScaled exPOB exOB 4).Feasible
     (buildScaled exPOB exOB 4).FeasibleRelaxed exXOB ∧ RescaledBaseFeasible exOB ((1/2) / 1) exXOB ∧
     ¬ RescaledBaseFeasible exOB ((1/2) / 1) (fun j => if j = 1 then 2 else exXOB j) ∧
     (buildScaled exPOB exOB 4).mapping.getLast? = some ⟨2, "s", some "n", .other "size", 0, 1, false, "scale"⟩ := by
+  unfold RescaledBaseFeasible
+  decide +kernel
+
+/-- which variables are tied to the scale (3f8a945): a base like a wrapped structure with a plant inside —
+    `x0` dispatch at the external node (type 'd'), `x1` dispatch at an internal node (type 'i', not boolean),
+    `x2` an on-flag (type 'i', boolean).  `x0` and `x1` are capacity variables: widened box, tie rows, bounds
+    times `s/norm` in the rescaled base; `x2` keeps its bounds [0,1] and gets no tie row.  At scale 1 of
+    norm 2 the point (1, 3/2, 1, s = 1) is feasible; raising `x1` above `4·(1/2)` is not; the flag may be 1
+    whatever the scale, but not 3/2. -/
+def exMix : AssetProblem :=
+  { name := "w", nodes := ["n"], c := [1, 0, 5], l := [0, 0, 0], u := [2, 4, 1],
+    rows := [⟨[(0, 1), (1, -1)], 0, .U⟩],
+    mapping := [⟨0, "w", some "n", .d, 0, 1, false, "disp"⟩, ⟨1, "w", some "w_internal_m", .i, 0, 1, false, "disp__pl"⟩,
+                ⟨2, "w", none, .i, 0, 1, true, "bool_on__pl"⟩] }
+def exPMix : ScaledP := { name := "s", node0 := "n", minScale := 0, maxScale := 3, normScale := 2, fixCosts := 1 }
+def exXMix : Vec := fun j => if j = 0 then 1 else if j = 1 then 3/2 else if j = 2 then 1 else if j = 3 then 1 else 0
+
+example : dispVars exMix.mapping = [0, 1] ∧
+    (buildScaled exPMix exMix 2).l = [0, 0, 0, 0] ∧ (buildScaled exPMix exMix 2).u = [3, 6, 1, 3] ∧
+    (buildScaled exPMix exMix 2).rows.length = 1 + 2 * 2 ∧
+    (buildScaled exPMix exMix 2).FeasibleRelaxed exXMix ∧ RescaledBaseFeasible exMix (1 / 2) exXMix ∧
+    ¬ (buildScaled exPMix exMix 2).FeasibleRelaxed (fun j => if j = 1 then 5/2 else exXMix j) ∧
+    ¬ RescaledBaseFeasible exMix (1 / 2) (fun j => if j = 1 then 5/2 else exXMix j) ∧
+    ¬ (buildScaled exPMix exMix 2).FeasibleRelaxed (fun j => if j = 2 then 3/2 else exXMix j) ∧
+    ¬ RescaledBaseFeasible exMix (1 / 2) (fun j => if j = 2 then 3/2 else exXMix j) ∧
+    (buildScaled exPMix exMix 2).FeasibleRelaxed (fun j => if j = 3 then 1/2 else if j = 0 then 1/2 else if j = 1 then 1 else exXMix j) := by
+  unfold RescaledBaseFeasible
+  decide +kernel
+
+/-- the rescaled base problem reads a point only below `n` (needs: base rows mention columns `< n` only) -/
+theorem rescaledBaseFeasible_congr (base : AssetProblem) (k : Rat) (x y : Vec)
+    (hcols : ∀ r ∈ base.rows, ∀ q ∈ r.coeffs, q.1 < base.n) (hxy : ∀ j, j < base.n → x j = y j) :
+    RescaledBaseFeasible base k x ↔ RescaledBaseFeasible base k y := by
+  have key : ∀ x y : Vec, (∀ j, j < base.n → x j = y j) → RescaledBaseFeasible base k x → RescaledBaseFeasible base k y := by
+    intro x y hxy ⟨hb, hr⟩
+    refine ⟨fun j hj => ?_, fun r hr' => ?_⟩
+    · rw [← hxy j hj]; exact hb j hj
+    · exact (scaleRhs_sat_congr k r x y (fun q hq => hxy q.1 (hcols r hr' q hq))).mp (hr r hr')
+  exact ⟨key x y hxy, key y x (fun j hj => (hxy j hj).symm)⟩
+
+/-- a point of the scaled problem has its scale component within `[min_scale, max_scale]` -/
+theorem scaled_scale_in_range (p : ScaledP) (base : AssetProblem) (dtSum : Rat) (z : Vec)
+    (hne : 0 < base.n) (hl : base.l.length = base.n) (hu : base.u.length = base.n)
+    (hz : (buildScaled p base dtSum).FeasibleRelaxed z) : p.minScale ≤ z base.n ∧ z base.n ≤ p.maxScale := by
+  have hlne : ¬ base.l.length = 0 := by omega
+  unfold buildScaled at hz
+  rw [if_neg hlne] at hz
+  have hb := hz.1
+  unfold buildScaledCore at hb
+  simp only [] at hb
+  rw [inBounds_append _ _ _ _ base.n (by rw [mapAt_length, hl]) (by rw [mapAt_length, hu]),
+    inBounds_single, Nat.add_zero] at hb
+  exact hb.2
+
+/-- **C16 (scaled asset, free scale).**  Under the hypotheses of `scaled_fixed` (for the base: non-empty,
+    bounds of the right length, capacity variables `< n`; `0 < norm`), `0 ≤ min_scale`, and base rows that
+    mention columns `< n` only (so that the base problem does not read the scale component): a number `B`
+    bounds the values of the scaled problem iff it bounds, for EVERY allowed scale `min_scale ≤ s ≤ max_scale`,
+    the values of the base problem rescaled by `s/norm` less the fixed costs `s · fix_costs · Σdt`.  The value
+    set of the scaled problem and the union over the allowed scales of the value sets of the rescaled base
+    problems (less fixed costs) have the same upper bounds, hence the same supremum: "with a free scale the
+    optimum is the best over the allowed range".  (Relaxed problems, as in `scaled_fixed`.) -/
+theorem scaled_free (p : ScaledP) (base : AssetProblem) (dtSum : Rat)
+    (hne : 0 < base.n) (hl : base.l.length = base.n) (hu : base.u.length = base.n)
+    (hdisp : ∀ d ∈ dispVars base.mapping, d < base.n)
+    (hcols : ∀ r ∈ base.rows, ∀ q ∈ r.coeffs, q.1 < base.n)
+    (hnorm : 0 < p.normScale) (hmin0 : 0 ≤ p.minScale) (B : Rat) :
+    (∀ z, (buildScaled p base dtSum).FeasibleRelaxed z → - costAt (buildScaled p base dtSum).c 0 z ≤ B) ↔
+    (∀ s, p.minScale ≤ s → s ≤ p.maxScale → ∀ x, RescaledBaseFeasible base (s / p.normScale) x →
+      - costAt base.c 0 x - s * p.fixCosts * dtSum ≤ B) := by
+  constructor
+  · intro h s hs1 hs2 x hx
+    have h0 : 0 ≤ s := Rat.le_trans hmin0 hs1
+    have hzn : (fun j => if j = base.n then s else x j) base.n = s := by simp
+    have hzx : ∀ j, j < base.n → (fun j => if j = base.n then s else x j) j = x j := by
+      intro j hj
+      have : j ≠ base.n := by omega
+      simp [this]
+    obtain ⟨hfeas, hval⟩ := scaled_fixed p base dtSum (fun j => if j = base.n then s else x j) s hne hl hu hdisp hnorm h0 hs1 hs2 hzn
+    have hz := hfeas.mpr ((rescaledBaseFeasible_congr base _ _ x hcols hzx).mpr hx)
+    have := h _ hz
+    rw [hval, costAt_congr base.c 0 _ x (fun j hj => by
+      rw [Nat.zero_add]; exact hzx j hj)] at this
+    exact this
+  · intro h z hz
+    obtain ⟨hs1, hs2⟩ := scaled_scale_in_range p base dtSum z hne hl hu hz
+    have h0 : 0 ≤ z base.n := Rat.le_trans hmin0 hs1
+    obtain ⟨hfeas, hval⟩ := scaled_fixed p base dtSum z (z base.n) hne hl hu hdisp hnorm h0 hs1 hs2 rfl
+    rw [hval]
+    exact h (z base.n) hs1 hs2 z (hfeas.mp hz)
+
+/-- non-vacuity of `scaled_free` on `exBase` (norm 2, scale range [0, 2], fixed costs 3·4 per unit of scale):
+    the hypotheses hold, the scaled problem has a point of value −27/2 at scale 1 whose base part is a point
+    of the base rescaled by 1/2 with the same value less 12, and a point at scale 0 of value 0 -/
+example : (∀ d ∈ dispVars exBase.mapping, d < exBase.n) ∧ (∀ r ∈ exBase.rows, ∀ q ∈ r.coeffs, q.1 < exBase.n) ∧
+    (0 : Rat) ≤ exP.minScale ∧ (buildScaled exP exBase 4).FeasibleRelaxed exX ∧
+    - costAt (buildScaled exP exBase 4).c 0 exX = -61/4 ∧ RescaledBaseFeasible exBase (1 / 2) exX ∧
+    - costAt exBase.c 0 exX - 1 * exP.fixCosts * 4 = -61/4 ∧
+    (buildScaled exP exBase 4).FeasibleRelaxed (fun _ => 0) ∧ - costAt (buildScaled exP exBase 4).c 0 (fun _ => 0) = 0 := by
   unfold RescaledBaseFeasible
   decide +kernel
 
